@@ -10,11 +10,8 @@ RULE = ("every response kind and every public serialisable map type: no member, 
         "The implementation's bytes must equal the model's AND pass an independent strict canonical-CBOR checker (lib/cbor.py "
         "check_canonical). Non-trivial = distinct (type, value) whose encoding has at least one map entry")
 ASSUMPTIONS = ["values of make_credential::UnsignedExtensionOutputs cannot be constructed outside the crate, so that member is always absent"]
-TECHNIQUE = "Coq proof: reflexive pairwise key-order obligation on regenerated declarations for all 32 feature sets + generic canonical-encoder theorem; differential run with independent canonical-CBOR checker"
-LEVEL_TEXT = ("Kernel-checked obligation that every pair of members of every serialisable declaration regenerated from /repo is in CTAP2 canonical "
-              "key order in all feature configurations, and that those declarations equal the specification tables; theorems that the model's "
-              "encoder emits shortest heads / definite lengths only; differential run in which every emitted byte string is also parsed by an "
-              "independent strict canonical-CBOR checker.")
+TECHNIQUE = "Coq proof: generic theorem that the encoder's output is canonical CBOR at every nesting level for every value whenever all structs list their members in canonical key order; that order is a reflexive obligation on the regenerated declarations for all 32 feature sets; differential run with independent canonical-CBOR checker"
+LEVEL_TEXT = ("Theorem (coq/Proofs/SerP.v ser_canon, Properties/C03.v c03_encoder_canonical / c03_response_body_canonical): for every environment with structs_ordered and every value, the encoder's output satisfies the canonical predicate (shortest heads, definite lengths, map keys strictly ascending in CTAP2 order, recursively, incl. COSE keys). Kernel-checked obligation that every serialisable declaration regenerated from /repo lists its members in canonical key order in all feature configurations and equals the specification tables. Differential run in which every emitted byte string is also parsed by an independent strict canonical-CBOR checker.")
 
 feature_sets = default_feature_sets
 
